@@ -6,7 +6,7 @@ Import ListNotations.
 (** ---- OutputCompiler: every source node becomes a node with exactly one of output/operation ---- *)
 Definition compiled_as (n : name) (st : sstate) (c : cnode) : Prop :=
   (exists v, s_output st = Some v /\ s_has_op st = false /\ c = {| c_out := Some v; c_op := None |})
-  \/ (s_output st = None /\ s_has_op st = true /\ c = {| c_out := None; c_op := Some (OpUser n) |}).
+  \/ (s_output st = None /\ s_has_op st = true /\ c = {| c_out := None; c_op := Some (OpUser (s_opid st)) |}).
 
 Theorem compile_outputs_spec : forall ns cn,
   compile_outputs ns = Ok cn ->
